@@ -111,6 +111,28 @@ class LambdaV:
         self.key = "lambda@%d" % node.lineno
 
 
+RAW_VIEW_FNS = {"getitem", "sort", "concat", "concat_seq", "asarray", "reshape", "flatten", "elem", "carried", "after_loop", "store", "repeat", "take", "unique", "union1d", "flip"}
+
+
+def raw_dtype_root(v, depth=0):
+    """The caller-typed array (tag `rawdtype`: its dtype is the caller's, possibly an unsigned integer) a value still has the dtype of, else None."""
+    if depth > 12:
+        return None
+    if isinstance(v, Sym):
+        return v if "rawdtype" in v.tags else None
+    if isinstance(v, App):
+        if v.fn == "fresh":
+            if v.kwd("dtype") == Const("float"):
+                return None
+            return raw_dtype_root(v.args[0], depth + 1) if v.args else None
+        if v.fn in RAW_VIEW_FNS and v.args:
+            for a in (v.args if v.fn in ("concat", "union1d") else v.args[:1]):
+                r = raw_dtype_root(a, depth + 1)
+                if r is not None:
+                    return r
+    return None
+
+
 def _is_empty_container(v):
     return (isinstance(v, Dct) and not v.unknown and not v.items) or (isinstance(v, Lst) and not v.items and not v.pappends and not v.unknown) \
         or (isinstance(v, Const) and v.value is None)
@@ -1423,6 +1445,8 @@ class Evaluator:
         if op == "Not":
             return negate(self.truth(v))
         if op == "USub":
+            if isinstance(v, V) and raw_dtype_root(v) is not None:
+                self.event("raw_arith", op="unary -", root=raw_dtype_root(v), node=e, text=ast.unparse(e))
             if self.raw_float and to_poly(v) is not None and not isinstance(v, Const):
                 return App("fneg", (v,))
             return neg(v) if to_poly(v) is not None else App("neg", (v,))
@@ -1436,6 +1460,11 @@ class Evaluator:
         return self.binop(type(e.op).__name__, self.eval(e.left, fr), self.eval(e.right, fr), e)
 
     def binop(self, op, a, b, node=None):
+        if op == "Sub" and isinstance(a, V) and isinstance(b, V):
+            ra, rb = raw_dtype_root(a), raw_dtype_root(b)
+            if ra is not None and rb is not None:
+                # both operands still carry the caller's dtype: for unsigned integers a - b wraps around whenever a < b
+                self.event("raw_arith", op="-", root=ra, node=node, text=ast.unparse(node) if node is not None else "a - b")
         if isinstance(a, (Lst, Tup)) and isinstance(b, (Lst, Tup)) and op == "Add":
             if isinstance(a, Tup) and isinstance(b, Tup):
                 return Tup(a.items + b.items)
